@@ -342,7 +342,9 @@ pub fn run_compile(proj: &str, options: &str, files_hex: &str, expected: &str) -
     // a projection may carry the verdict of its property's own predicate on the implementation's output (` oracle=FAIL(<reason>)`)
     let oracle = oracle.or_else(|| actual.split_once(" oracle=FAIL(").map(|(_, r)| format!("the property's predicate fails on the implementation's output: {}", r.trim_end_matches(')'))));
     let diff = if actual != expected { Some(crate::compile::short_diff(expected, &actual)) } else { None };
-    CaseResult { nontrivial: actual.len() > 40 || actual.contains(','), actual, diff, oracle }
+    // for C01 (`any`) the observation is constant: a case is non-trivial when its input is more than a few tokens long
+    let nontrivial = if proj == "any" { files_hex.len() > 24 } else { actual.len() > 40 || actual.contains(',') };
+    CaseResult { nontrivial, actual, diff, oracle }
 }
 
 pub fn short_diff(expected: &str, actual: &str) -> String {
